@@ -85,6 +85,8 @@ class TraceCheck:
         if tr.probes.get("set_ie"):
             faults["user_nocheck"] = tr.probes["set_ie"]
         viol = [dict(v) for v in tr.violations if v["property"] == self.prop] + list(extra_viol)
+        if tr.type_leak:
+            viol = []
         nt = None
         if self.is_nontrivial(tr):
             nt = P.plan_digest({"p": case["plan"], "f": case.get("faults")})
@@ -300,7 +302,7 @@ class C06(TraceCheck):
         alt = list(case["alt_inputs"]) + [i["v"] for i in plan["inputs"]][len(case["alt_inputs"]):]
         tr2 = T.TraceRun(plan, inputs=alt, props=()).run()
         viol = []
-        discarded = not (tr1.outcome == "completed" and tr2.outcome == "completed")
+        discarded = not (tr1.outcome == "completed" and tr2.outcome == "completed") or tr1.type_leak or tr2.type_leak
         nt = None
         if not discarded:
             d = segment_diff(tr1, tr2)
@@ -356,7 +358,7 @@ VALUE_OPS = {"let": 10, "assert": 0, "guarded": 0, "ite_call": 0, "set_ie": 0, "
 def honest(plan, inputs=None):
     """Honest run with checks on; None unless it completed with no exception at all."""
     tr = PV.run_plan(plan, inputs)
-    if tr.outcome != "completed" or tr.caught:
+    if tr.outcome != "completed" or tr.caught or tr.type_leak:
         return None
     return tr
 
@@ -1462,7 +1464,7 @@ class C19(TraceCheck):
     name = "C19"
     prop = "C19"
     props = ()
-    budget = {"quick": 320, "thorough": 976}
+    budget = {"quick": 320, "thorough": len(c19_configs())}
     exhaustive_tiers = ("thorough",)
     components = REAL_EXIT
     run_cap_s = 300
@@ -1472,7 +1474,7 @@ class C19(TraceCheck):
             "ipython on/off; one fresh interpreter per configuration, followed by a three-statement traced "
             "program. oracle from the statement: pre-import wins; else a known name selects exactly that "
             "module or the interpreter dies with a traceback; unknown name => message, then auto-detect in "
-            "the documented order; reported name <-> (module receiving the constraints, modulus in effect, "
+            "the documented order (notebook detection only there); reported name <-> (module receiving the constraints, modulus in effect, "
             "Groth flag) per a table in the checker; complete interface. quick samples the space, thorough "
             "sweeps all of it (exhaustive). non-trivial = distinct configurations judged")
 
@@ -1981,6 +1983,8 @@ class C07(ProverCheck):
                         faults["lie-wire"] = tried
                         probes["dead_hints_attacked"] = len(dead_hints)
         nt = P.plan_digest(plan) if dead_seen else None
+        if tr.type_leak:
+            viol = []
         # de-duplicate
         out = []
         for v in viol:
@@ -3012,7 +3016,7 @@ class QapRun:
                  "LinCombBool": w.boolean.LinCombBool, "if_then_else": w.branching.if_then_else,
                  "PrivValFxp": lambda v: rt.PrivVal(int(v)), "PubValFxp": lambda v: rt.PubVal(int(v)),
                  "Array": importlib.import_module("pysnark.array").Array, "ConstVal": rt.ConstVal,
-                 "subqap": b.subqap, "exportcomm": b.exportcomm,
+                 "subqap": b.subqap, "exportcomm": b.exportcomm, "__zero__": rt.ConstVal(0),
                  "importcomm": b.importcomm, "__inputs__": self.inputs,
                  "__step__": lambda *a: None, "__enter__": lambda *a: None, "__leave__": lambda *a: None,
                  "__caught__": lambda k, e, m=(): self.caught.append((k, type(e).__name__, str(e)[:80])),
